@@ -11,6 +11,7 @@
 import Sbepp.Lemmas.Encode
 import Sbepp.Lemmas.Frame
 import Sbepp.Lemmas.Decode
+import Sbepp.Lemmas.ResolveWF
 
 namespace Sbepp.Properties.C01
 open Sbepp Sbepp.Spec
@@ -61,6 +62,14 @@ theorem setter_frame (old block : List Nat) (lv : List Leaf) (i : Nat)
     (hout : ∀ lf ∈ lv, i < lf.off ∨ lf.off + lf.size ≤ i) :
     (writeLeaves old 0 block lv)[i]? = old[i]? :=
   writeLeaves_frame old block lv i hb hp hout
+
+/-- **accepted_layout_sorted**: for every message of every schema the validator
+    model accepts, the leaves of every level are in ascending non-overlapping
+    order and inside the block — the hypotheses of `setter_writes_value` and
+    `setter_frame` hold for all accepted schemas. -/
+theorem accepted_layout_sorted (s : Schema.SchemaDef) (md : Schema.MessageDef) (m : Schema.NMessage)
+    (hr : Schema.resolveMessage s md = .ok m) : Observe.WFL m.level ∧ Schema.SortedL m.level :=
+  Schema.resolve_wf s md m hr
 
 /-! non-vacuity -/
 def exL : Level := .mk 4 [⟨0, 2⟩, ⟨3, 1⟩] [.mk ⟨3, 0, 2, 2, 1, []⟩ (.mk 1 [⟨0, 1⟩] [] [⟨1⟩])] [⟨2⟩]
